@@ -805,9 +805,14 @@ class BoboDistributedTCP(BoboDistributed,
         """
         Joins with the incoming and outgoing threads.
         """
+        # The local lock is not held while waiting: the outgoing thread may
+        # itself be waiting for the decider, whose notifier waits for this lock.
         with self._lock_local:
-            self._thread_incoming.join()
-            self._thread_outgoing.join()
+            thread_incoming: Thread = self._thread_incoming
+            thread_outgoing: Thread = self._thread_outgoing
+
+        thread_incoming.join()
+        thread_outgoing.join()
 
     def close(self) -> None:
         """
